@@ -13,13 +13,13 @@ RULE = ("every outcome sequence of length L (L=6 quick, 8 thorough; all shorter 
         "oracle: the i-th request made on the multi-node client goes to node i mod n (retries of one request "
         "stay on its node); plus hypothesis-sampled sequences of length <=12 with more failure kinds (read timeout, "
         "non-list JSON error body, 401, arbitrary exception from the transport) and request styles (verb helpers, raw request, "
-        "stream=True, params, timeout). Non-trivial: a failure is followed by another request and n>=2. Distinct = (n, sequence).")
+        "stream=True, params, timeout, from a second thread) and node lists that name one endpoint several times. Non-trivial: a failure is followed by another request and n>=2. Distinct = (n, sequence).")
 
 J = "application/json"
 OUTCOMES = ["ok", "404", "500", "exc", "retry-ok"]
 # sampled part: more failure kinds and request styles (the way the request is issued must not matter either)
 MORE_OUTCOMES = OUTCOMES + ["read-timeout", "bad-json-error", "401", "runtime-error"]
-STYLES = ["verb", "verb", "stream", "params", "timeout", "raw-request"]
+STYLES = ["verb", "verb", "stream", "params", "timeout", "raw-request", "thread"]
 URIS = ["http://a:1", "http://b:2", "http://c:3", "http://d:4"]
 VERBS = ["get", "post", "put", "delete"]
 
@@ -60,7 +60,9 @@ def oracle(case):
         return fake_http.make_response(200, b'{"x":2}', J)
 
     script = fake_http.Script(responder)
-    node = RpcMultiNode(URIS[:n])
+    uris = case.get("uris") or URIS[:n]   # a configured list may name one endpoint several times (weights)
+    n = len(uris)
+    node = RpcMultiNode(list(uris))
     with fake_http.patched(script):
         for i, o in enumerate(seq):
             state["req"], state["sub"] = i, 0
@@ -69,7 +71,21 @@ def oracle(case):
             style = (case.get("styles") or ["verb"] * len(seq))[i]
             path = "chains/main/blocks/head"
             try:
-                if style == "stream":
+                if style == "thread":  # the same client object used from another (joined) thread: still the client's i-th request
+                    import threading
+                    box = {}
+
+                    def work():
+                        try:
+                            box["r"] = getattr(node, verb)(path)
+                        except BaseException as ex:  # noqa: B036
+                            box["e"] = ex
+                    th = threading.Thread(target=work)
+                    th.start()
+                    th.join()
+                    if "e" in box:
+                        raise box["e"]
+                elif style == "stream":
                     node.request("GET", path, stream=True)
                 elif style == "params":
                     node.get(path, params={"a": "1"})
@@ -89,7 +105,7 @@ def oracle(case):
             if failed != (o in ("404", "500", "exc", "read-timeout", "bad-json-error", "401", "runtime-error")):
                 raise Violation("request %d outcome %s: failed=%s" % (i, o, failed), case, "outcome")
             urls = [c["url"] for c in script.calls[before:]]
-            want = URIS[i % n]
+            want = uris[i % n]
             if not urls or any(not u.startswith(want + "/") for u in urls):
                 raise Violation("n=%d request #%d after outcomes %s went to %s, expected node %s"
                                 % (n, i, seq[:i], urls, want), case, "wrong-node")
@@ -113,7 +129,8 @@ def run(h):
     h.coverage_extra["exhaustive_subdomain"] = "all outcome sequences of length <=%d over 5 outcomes, 1..4 nodes" % L
     h.run_enum(items, _prop, shards=16)
     from hypothesis import strategies as st
+    uri_lists = st.one_of(st.none(), st.none(), st.lists(st.sampled_from(URIS[:3]), min_size=2, max_size=5))
     styled = st.integers(1, 12).flatmap(lambda k: st.fixed_dictionaries({
         "n": st.integers(1, 4), "seq": st.lists(st.sampled_from(MORE_OUTCOMES), min_size=k, max_size=k),
-        "styles": st.lists(st.sampled_from(STYLES), min_size=k, max_size=k)}))
+        "styles": st.lists(st.sampled_from(STYLES), min_size=k, max_size=k), "uris": uri_lists}))
     h.run_given(lambda: styled, _prop, h.n(150, 3000), shards=16, name="styled")
